@@ -173,7 +173,7 @@ async def fresh_gateway(T, cfg: dict) -> Any:
 
 
 async def one_pass(lines: list[str], ie: int, eav: int, g_src: int, g_new: int, pid: Interner, sid: Interner,
-                   verbose: bool = False) -> list[dict]:
+                   verbose: bool = False, age_s: float = 0.0) -> list[dict]:
     """snapshot -> fresh gateway -> snapshot -> same snapshot again -> snapshot; then the snapshot back
     into its source -> snapshot.  All observations after the loop has drained (J1)."""
     cfg = {"config": {"enable_eavesdrop": bool(eav), "disable_discovery": True}}
@@ -183,6 +183,18 @@ async def one_pass(lines: list[str], ie: int, eav: int, g_src: int, g_new: int, 
     try:
         T = src._dt_now()
         await vloop.drain()
+        if age_s:
+            # the state is read once while the last packets are fresh (a snapshot nobody keeps, all views), then the
+            # clock moves on: what was looked at while fresh must age like everything else
+            try:
+                src.get_state(include_expired=True)
+                for d in list(src.devices):
+                    _ = d.status
+            except Exception:  # noqa: BLE001  (C13's subject)
+                pass
+            T = T + _dt.timedelta(seconds=age_s)
+            src._transport._dt_now = lambda: T
+            await vloop.drain()
         r1, pk = snap_record(src, g_src, ie, T, pid, sid)
         ops.append(r1)
         await vloop.drain()
@@ -220,9 +232,10 @@ async def one_pass(lines: list[str], ie: int, eav: int, g_src: int, g_new: int, 
     return ops
 
 
-async def run_history(lines: list[str], eav: int, pid: Interner, sid: Interner, verbose: bool = False) -> dict:
-    ops1 = await one_pass(lines, 1, eav, 1, 2, pid, sid, verbose)
-    ops0 = await one_pass(lines, 0, eav, 3, 4, pid, sid, verbose)
+async def run_history(lines: list[str], eav: int, pid: Interner, sid: Interner, verbose: bool = False,
+                      age_s: float = 0.0) -> dict:
+    ops1 = await one_pass(lines, 1, eav, 1, 2, pid, sid, verbose, age_s)
+    ops0 = await one_pass(lines, 0, eav, 3, 4, pid, sid, verbose, age_s)
     off = len(ops1)
     for o in ops0:  # src refers to the op number of the pass's first snapshot
         if o["op"] == "restore":
